@@ -680,6 +680,17 @@ def _establish(ctx: Ctx) -> None:
            construct="j_from_ode row guard", nontrivial=False)
 
 
+def _cond_atoms(c: Any) -> set:
+    from sa.symterm import Poly, all_atoms
+    out: set = set()
+    if isinstance(c, Poly):
+        return set(all_atoms(c))
+    if isinstance(c, tuple):
+        for x in c[1:]:
+            out |= _cond_atoms(x)
+    return out
+
+
 def _plan_range(ctx: Ctx) -> None:
     from sa.guards import GuardWalk, is_opaque
     from sa.kern import make_evaluator, py_calls
@@ -733,8 +744,22 @@ def _plan_range(ctx: Ctx) -> None:
         want = ("not", c_and(("le", -n, v), ("le", v, n)))
         from sa.checks.c05 import _same_cond
         alt = ("or", ("lt", v, -n), ("lt", n, v))
-        if _same_cond(e.cond, want) or e.cond == alt or \
-                _same_cond(e.cond, alt):
+        from sa.casesplit import equivalent as _equiv
+        try:
+            same = _same_cond(e.cond, want) or e.cond == alt or \
+                _same_cond(e.cond, alt) or _equiv(e.cond, want)[0]
+        except Exception:  # noqa: BLE001
+            same = False
+        if not same and not ok:
+            mentions = v.as_atom() in _cond_atoms(e.cond)
+            if mentions:
+                detail = (f"the check of the cells raises when "
+                          f"[{show_cond(e.cond)[:200]}], which is not "
+                          f"`cell < -n or n < cell` (n = number of teams): "
+                          "plans with legal entries are rejected or "
+                          "illegal ones accepted")
+                node = e.node
+        if same:
             full = []
             for lp, hi in zip(() if enum_form else e.loops, ((
                     n - Poly.const(1)) * Poly.var(
